@@ -33,6 +33,18 @@ NEEDS = {
  "C13B": ("C13", "Fq::from_okm skips the multiplication by 2^256 when 3 of the 4 upper limbs are zero", "a 64-byte block with bytes 8..32 zero and bytes 0..8 non-zero (e.g. 2^448)"),
  "C19A": ("C19", "G2 uncompressed deserialize reads the second half with read() instead of read_exact()", "G2 projective, compressed = false: short reads / Interrupted readers, truncated identity encodings"),
  "C19B": ("C19", "G1Affine compressed deserialize gains an identity fast path that ignores the low six bits of the flag byte", "compressed G1Affine stream [b0, 0, ...] with b0 in 0xc1..=0xff"),
+ "C14A": ("C14", "G2 osswu_map, eta branch: sign of y follows u.c0.sgn0() instead of u.sgn0()", "G2 input with c0 = 0, odd c1 and non-square g(X0(u)), e.g. u = i"),
+ "C14B": ("C14", "add_assign: equal-operand test compares raw coordinates (x, y, z) instead of cross-multiplied ones", "the same point through different Z, e.g. map2_to_curve(u, 1/(Z u)) whose SSWU images coincide with different Z"),
+ "C15A": ("C15", "G2 osswu_map: both sign fixes use u.c0.sgn0()", "t in Fq2 with c0 = 0 and c1 odd"),
+ "C15B": ("C15", "Fq2::sgn0 tests only the lowest limb of c0 for zero", "c0 a non-zero multiple of 2^64 and c1 odd"),
+ "C16A": ("C16", "eval_iso skips all Z scaling when Z^2 == 1", "a Jacobian representative with Z = -1"),
+ "C16B": ("C16", "eval_iso returns early (input unchanged) when the output Z is zero", "one of the ten rational kernel points of the G1 11-isogeny"),
+ "C17A": ("C17", "G1 clear_h adds the input back with a mixed addition on a hand-built affine value when is_normalized()", "the identity as input (is_normalized() is true for Z = 0)"),
+ "C17B": ("C17", "chain_z returns early for an identity input before writing its output", "G2 points with [3 h2]P = O (cofactor subgroup, small-order points): a stale table entry is used"),
+ "C18A": ("C18", "Fq2::sqrt zero shortcut tests only c0", "purely imaginary inputs (c0 = 0, c1 != 0): returns Some(0)"),
+ "C18B": ("C18", "Fq2::legendre fast path returns Zero whenever c0 = 0", "purely imaginary non-zero elements"),
+ "C20A": ("C20", "Pippenger buckets kept in a thread_local scratch vector assumed to be all-zero after every call", "a call that panics on the scalar-range assert (caught by the caller) leaves a point behind: the next MSM on that thread is wrong"),
+ "C20B": ("C20", "process-wide 'last prepared G2' cache with key and payload under separate locks", "two threads preparing G2 points concurrently, one of them the most recently prepared point"),
 }
 
 
